@@ -95,7 +95,8 @@ def run_case(rec, case):
         rng.random() < 0.3
     if case['_slow']:
         hcfg = dict(hcfg, suspend={'message': 0.05})
-    sim = scen.make_sim(srv, server_kwargs={'async_handlers': asyncm},
+    sim = scen.make_sim(srv, real_ws_driver=bool(case.get('tws')),
+                        server_kwargs={'async_handlers': asyncm},
                         handler_cfg=hcfg,
                         policy='random', seed=rng.randrange(1 << 30),
                         yield_prob=rng.choice([0.0, 0.3]),
@@ -382,6 +383,8 @@ def run_shard(spec):
         c['aio'] = 'H'
     for c in cases[2::4]:
         c['aio'] = 'N'     # ... and behind the tornado adapter
+    for c in cases[1::3]:
+        c['tws'] = True    # threaded server: the real simple_websocket driver
     for c in cases[1::3]:
         c['mut'] = True
     scen.run_cases(rec, cases, run_case)
